@@ -274,10 +274,13 @@ Example C07_file_example_hyps :
                  /\ match read_info bs with Ok i => map zh_res (i_zooms i) = [3; 10] | _ => False end).
 Proof.
   split; [unfold opts_ok; cbn; lia|]. split.
-  - unfold input_ok. assert (Hr : runs ex_file_inp = [([97], ex_vals)]) by reflexivity. rewrite Hr. cbn [map fst]. split.
-    + repeat constructor; intros H; repeat (destruct H as [H|H]; try discriminate); assumption.
-    + split; [repeat constructor; try discriminate; reflexivity|]. split; [reflexivity|].
-      split; [repeat constructor|unfold ex_file_inp, ex_vals; cbn [map]; repeat constructor].
+  - (* written so that it survives changes in the number / order of input_ok's conjuncts *)
+    unfold input_ok. assert (Hr : runs ex_file_inp = [([97], ex_vals)]) by reflexivity. rewrite Hr.
+    cbv [ex_file_inp ex_vals map fst].
+    repeat match goal with |- _ /\ _ => split end;
+      first [ reflexivity
+            | repeat constructor; try discriminate; try reflexivity;
+              try (intros H; repeat (destruct H as [H|H]; try discriminate); try assumption; try contradiction) ].
   - assert (E : zoom_sizes_single ex_file_opts = [3; 10]) by (vm_compute; reflexivity).
     split; [rewrite E; repeat constructor; unfold U32; lia|].
     split; [unfold manual_u32, ex_file_opts; cbn [o_manual]; repeat constructor; unfold U32; lia|].
